@@ -308,9 +308,12 @@ class Scope:
 
 
 class Gen:
-    def __init__(self, rng, size=1.0):
+    def __init__(self, rng, size=1.0, loose=False):
         self.r = rng
         self.size = size
+        # loose: do not keep impure calls away from non-constant siblings; the reference semantics
+        # decides which of these programs are defined (probes the boundary of its evaluation-order rule)
+        self.loose = loose
         self.used = set(KEYWORDS)
         self.gvals = {}            # name -> int
         self.gvars = []            # initialised by main's prologue
@@ -561,8 +564,8 @@ class Gen:
             c = self.const_expr(sc, 2)[0]
             b = sub(sc, depth - 1, False)
             return ["bin", op, c, b, False]
-        a = sub(sc, depth - 1, False)
-        b = sub(sc, depth - 1, False)
+        a = sub(sc, depth - 1, imp and self.loose)
+        b = sub(sc, depth - 1, imp and self.loose)
         chain = op in ASSOC and b[0] == "bin" and b[1] == op and r.chance(2, 3)
         if b[0] in ("bin", "call", "sub", "syscall", "un"):
             self.features["shape:rhs-needs-temp"] += 1
@@ -726,7 +729,7 @@ class Gen:
                     shapes.append("call")
                 out.append(e)
             else:
-                out.append(self.gen_int(sc, depth, False)); shapes.append("expr")
+                out.append(self.gen_int(sc, depth, self.loose and allow_impure)); shapes.append("expr")
         for i, s in enumerate(shapes):
             if s == "temp" and "call" in shapes[i + 1:]:
                 self.features["shape:temp-actual-before-call-actual"] += 1
@@ -1226,10 +1229,12 @@ class Gen:
         return {"globals": globals_, "procs": procs}
 
 
-def generate(rng, size=1.0):
+def generate(rng, size=1.0, loose=False):
     """returns (program, features Counter)"""
-    g = Gen(rng, size)
+    g = Gen(rng, size, loose)
     prog = g.gen_program()
+    if loose:
+        g.features["mode:loose"] += 1
     return prog, g.features
 
 
